@@ -14,7 +14,8 @@ def c14(ctx: Ctx):
     ctx.assumptions = [
         "TLC and the CommunityModules Json/CSV modules",
         "the harness's scripted handler, recording ResponseWriter (net/http status-code panic emulated) and request realiser (harness/c14.go)",
-        "one fixed test document (3 operations, response map {200: json schema, 201: no content}); handler alphabet and body tokens as in spec/Middleware.tla",
+        "two fixed test documents (4 operations without / 2 operations with a global security requirement; response map {200: json schema, 201: no content}); handler alphabet and body tokens as in spec/Middleware.tla",
+        "the ClientModel of spec/Middleware.tla (first final WriteHeader wins, 1xx other than 101 commits nothing, Write/Flush imply 200) is net/http's for the statuses of the universe {103, 200, 201, 204, 500} and the error statuses: judged per run against a real net/http server + client for behaviours of <= 2 calls and all with a 1xx status (clause client_model_is_net_http); 304 and 101 are outside the universe",
         "bodies made of a complete valid JSON document followed by more bytes are outside the universe (Clear)",
     ]
     if ctx.replay:
@@ -23,11 +24,16 @@ def c14(ctx: Ctx):
     else:
         # D: the pinned-tree variant of the model must still show the design-level defect (model drift guard)
         ctx.tlc("MC_C14", "MC_C14_pinned.cfg", expect_violation=True, label="D pinned-model counterexample")
-        # D + F: exhaustive L2 => L1 and generation of every behaviour
+        # D: the model of the code as it is (InfoFix = FALSE) must show the open finding F-C14-2 (model drift guard), and the
+        # model of the proposed repair (InfoFix = TRUE) must satisfy the contract without exception
+        ctx.tlc("MC_C14", "MC_C14_asis.cfg", expect_violation=True, label="D as-is model shows F-C14-2")
+        ctx.tlc("MC_C14", "MC_C14_repair.cfg", label="D repaired model: L2=>L1, no exception")
+        # D + F: exhaustive L2 => L1 (up to the open finding's class) and generation of every behaviour
         ctx.tlc("MC_C14", "MC_C14_%s.cfg" % tier, label="D/F exhaustive L2=>L1 + generate")
         n = ctx.unquote(ctx.spec("cases.ndjson"), cases)
         ctx.exhaustive = True
-        ctx.extra["generator_constants"] = {"MaxCalls": 3 if tier == "quick" else 4}
+        ctx.extra["generator_constants"] = ({"MaxCalls": 3, "SideCalls": 1, "ExtMax": 1, "ExtDepth": 3} if tier == "quick"
+                                            else {"MaxCalls": 4, "SideCalls": 2, "ExtMax": 2, "ExtDepth": 3})
         log("[gen] %d behaviours" % n)
     ctx.build_driver()
     logp = os.path.join(ctx.scratch, "log.ndjson")
@@ -35,12 +41,17 @@ def c14(ctx: Ctx):
     cs = read_ndjson(cases)
     ctx.evaluations = len(cs)
     for c in cs:
-        if c["script"] or not c["cfg"]["reqClass"].startswith("valid"):
+        if c["script"] or c["cfg"]["reqClass"] not in ("valid_post", "valid_plain", "valid_upgrade", "opt_anon", "g_open"):
             ctx.nontrivial.add(casehash(c))
-    ctx.rule = ("every terminal state of spec/Middleware.tla (all handler call sequences up to MaxCalls over 12 calls x "
-                "strict x 9 request classes x 2 errFunc modes) is one case; non-trivial = gate-failing request or non-empty handler script")
+    ctx.rule = ("every terminal state of spec/Middleware.tla is one case: all handler call sequences up to MaxCalls over the 12 core calls "
+                "(+ up to ExtMax of the 9 extended calls: WriteHeader(1xx), WriteHeader(204), io.Copy, ResponseController.Flush, body read, interface probe, panic; "
+                "length <= ExtDepth) x strict x errFunc mode x gate (Validator, 3 ValidationHandler forms) for the main request classes; "
+                "up to SideCalls calls for the configurations that vary the gate only (21 request classes over 2 documents x 4 ways of "
+                "configuring AuthenticationFunc x request-side options x sequential/concurrent primers); "
+                "non-trivial = security-bearing or gate-failing request, or non-empty handler script")
     rng = random.Random(ctx.seed)
     ctx.samples = sample(rng, cs, 5)
-    ctx.validate("Trace_C14", "Trace_C14.cfg", logp, run_start=lambda o: o.get("ev") == "cfg")
+    # one round of chunks on 16 cores: a chunk costs a JVM start, a line almost nothing
+    ctx.validate("Trace_C14", "Trace_C14.cfg", logp, run_start=lambda o: o.get("ev") == "cfg", chunk_lines=48000)
 
 
